@@ -462,6 +462,7 @@ func runScript(bin string, in input, scratch string) ([]lib.Case, string) {
 	os.WriteFile(scriptPath, sb, 0o644)
 	ctx, cancel := context.WithTimeout(context.Background(), 120*time.Second)
 	defer cancel()
+	exitFromWait := false
 	straceArgs[2] = tracePath
 	cmd := exec.CommandContext(ctx, "strace", append(straceArgs, bin)...)
 	cmd.Env = append(os.Environ(), "NSQ_VERIF_DRIVER=1", "NSQ_VERIF_SCRIPT="+scriptPath, "NSQ_VERIF_MARKER="+markerPath, "TZ=UTC")
@@ -473,6 +474,15 @@ func runScript(bin string, in input, scratch string) ([]lib.Case, string) {
 	tr, err := parseTrace(tracePath, outDir, workDir, markerPath, o.GZIP)
 	if err != nil {
 		return nil, "trace: " + err.Error()
+	}
+	if tr.ExitCode < 0 && cmd.ProcessState != nil && cmd.ProcessState.ExitCode() >= 0 {
+		// the trace holds no exit record (seen once under heavy load): strace itself exits with
+		// its tracee's status, so the wait status says how the run ended
+		tr.ExitCode = cmd.ProcessState.ExitCode()
+		if tr.ExitCode == 1 {
+			tr.Ops = append(tr.Ops, obsOp{Kind: "exit", Code: 1})
+		}
+		exitFromWait = true
 	}
 	if len(tr.Markers) == 0 {
 		return nil, "no marker lines from the verif driver (" + in.Name + "): " + string(outb)
@@ -684,6 +694,9 @@ func runScript(bin string, in input, scratch string) ([]lib.Case, string) {
 		exit = 99
 	}
 	tags = append(tags, fmt.Sprintf("exit=%d", exit), "kind=run")
+	if exitFromWait {
+		tags = append(tags, "exit-status-from-wait")
+	}
 	coq := fmt.Sprintf("(J19.Run (J19.mkRun %s %s %s %s %s %d%%nat %s %s %s %s %s %s %s %d %s))",
 		lib.CoqBool(o.GZIP), lib.CoqZ(o.RotateSize), lib.CoqZ(o.RotateIntervalNs), lib.CoqBool(in.Work), lib.CoqBool(o.SkipEmpty), o.MaxInFlight,
 		lib.CoqBytes([]byte(fmt.Sprint(start["filename_format"]))), lib.CoqList(dts), lib.CoqBool(in.Ticks), lib.CoqList(faults), lib.CoqList(pre),
